@@ -21,11 +21,17 @@ use crate::{
 
 use crate::compile;
 
+/// The parser is recursive descent; every level of nesting (parentheses, list and map
+/// literals, call arguments, index expressions, else-branches, match arms, runs of `!` and
+/// `-`) costs native stack. Deeper input is rejected instead of overflowing the stack.
+const MAX_NESTING_DEPTH: usize = 48;
+
 pub struct CelCompiler<'l> {
     tokenizer: &'l mut dyn Tokenizer,
     bindings: BindContext<'l>,
 
     next_label: u32,
+    depth: usize,
 }
 
 impl<'l> CelCompiler<'l> {
@@ -34,6 +40,7 @@ impl<'l> CelCompiler<'l> {
             tokenizer,
             bindings: BindContext::for_compile(),
             next_label: 0,
+            depth: 0,
         }
     }
 
@@ -58,7 +65,28 @@ impl<'l> CelCompiler<'l> {
         n
     }
 
+    fn enter_nesting(&mut self) -> CelResult<()> {
+        if self.depth >= MAX_NESTING_DEPTH {
+            return Err(SyntaxError::from_location(self.tokenizer.location())
+                .with_message(format!(
+                    "Expression is nested more than {} levels deep",
+                    MAX_NESTING_DEPTH
+                ))
+                .into());
+        }
+
+        self.depth += 1;
+        Ok(())
+    }
+
     fn parse_expression(&mut self) -> CelResult<(CompiledProg, AstNode<Expr>)> {
+        self.enter_nesting()?;
+        let res = self.parse_expression_inner();
+        self.depth -= 1;
+        res
+    }
+
+    fn parse_expression_inner(&mut self) -> CelResult<(CompiledProg, AstNode<Expr>)> {
         if let Some(&TokenWithLoc {
             token: Token::Match,
             loc: match_loc,
@@ -858,7 +886,10 @@ impl<'l> CelCompiler<'l> {
             }) => {
                 self.tokenizer.next()?;
 
-                let (not_list, ast) = self.parse_not_list()?;
+                self.enter_nesting()?;
+                let tail = self.parse_not_list();
+                self.depth -= 1;
+                let (not_list, ast) = tail?;
                 let node = compile!([ByteCode::Not.into()], not_list, not_list);
 
                 let range = ast.range().surrounding(loc);
@@ -891,7 +922,10 @@ impl<'l> CelCompiler<'l> {
             }) => {
                 self.tokenizer.next()?;
 
-                let (neg_list, ast) = self.parse_neg_list()?;
+                self.enter_nesting()?;
+                let tail = self.parse_neg_list();
+                self.depth -= 1;
+                let (neg_list, ast) = tail?;
                 let node = compile!([ByteCode::Neg.into()], neg_list, neg_list);
 
                 let range = ast.range().surrounding(loc);
@@ -1325,6 +1359,7 @@ impl<'l> CelCompiler<'l> {
                         FStringSegment::Expr(e) => {
                             let mut tok = StringTokenizer::with_input(&e);
                             let mut comp = CelCompiler::with_tokenizer(&mut tok);
+                            comp.depth = self.depth;
 
                             // the sub-tokenizer's locations are relative to the placeholder
                             // text: report the f-string token's own position instead
